@@ -335,7 +335,7 @@ class UnitBuilder:
                     mm = re.match(r'"(.*)"\s*=>\s*"(.*)"\s*(all)?$', arg, re.S)
                     if not mm:
                         raise ValueError('%s: bad @sub %r' % (origin, arg))
-                    ds.append(('sub', (mm.group(1), mm.group(2), bool(mm.group(3)))))
+                    ds.append(('sub', (mm.group(1).replace('\\"', '"'), mm.group(2).replace('\\"', '"'), bool(mm.group(3)))))
                 elif k in ('requires', 'ensures', 'decreases', 'recommends', 'invariant', 'invariant_except_break', 'no_unwind'):
                     cur = (k, None, [arg] if arg else [])
                 elif k == 'at':
